@@ -227,4 +227,12 @@ def evalFilter (f : Filter) (req : Request) : Bool :=
 /-- The filter chain: the request is admitted iff every filter, in order, lets it pass. -/
 def evalFilters (fs : List Filter) (req : Request) : Bool := fs.all (evalFilter · req)
 
+/-- A generated filter lets the request pass: RBAC as above; the ext_authz filter of a CUSTOM provider
+    is taken to allow (the external authorizer's answer is outside the statement). -/
+def evalG : GFilter → Request → Bool
+  | .rbac f, r => evalFilter f r
+  | .extAuthz _ _ _, _ => true
+
+def evalGs (fs : List GFilter) (req : Request) : Bool := fs.all (evalG · req)
+
 end IstioModel.C08
